@@ -46,8 +46,10 @@ structure Init (s0 : St) : Prop where
   hist : HistOk s0.hist
   cur : ∀ c, s0.claim = some c → ∃ t, s0.hist = c :: t
   bound : ∀ n, boundAt s0 n → acked s0 n
+  /-- every stored version of the claim is the object the reconciler is keyed on -/
+  idOk : ∀ v ∈ s0.hist, v.id = s0.me
   xcur : ∀ n, s0.xrs n ∈ s0.xhist n
-  xfor : ∀ n, foreignAt s0 n → ∀ ox ∈ s0.xhist n, ∃ x, ox = some x ∧ x.cref = some .other
+  xfor : ∀ n, foreignAt s0 n → ∀ ox ∈ s0.xhist n, ∃ x, ox = some x ∧ x.foreignTo s0.me
 
 theorem Init.inv {s0 : St} (h : Init s0) : Inv (acked s0) s0 where
   rvLt := h.rvLt
@@ -58,26 +60,32 @@ theorem Init.inv {s0 : St} (h : Init s0) : Inv (acked s0) s0 where
   ackHist := fun n hn => by rw [h.trace] at hn; cases hn
   p0 := fun _ hn => hn
   trace := by rw [h.trace]; trivial
+  idOk := h.idOk
   xcur := h.xcur
   xfor := h.xfor
 
 /-- The usual start: the claim has a single stored version. -/
 theorem Init.single {s0 : St} {c : Claim} (hc : s0.claim = some c) (hh : s0.hist = [c]) (hrv : c.rv < s0.nextRv)
-    (ht : s0.trace = []) (hb : ∀ n, boundAt s0 n → c.ref = some n) (hx : ∀ n, s0.xhist n = [s0.xrs n]) : Init s0 where
+    (ht : s0.trace = []) (hid : c.id = s0.me) (hb : ∀ n, boundAt s0 n → c.refName = some n)
+    (hx : ∀ n, s0.xhist n = [s0.xrs n]) : Init s0 where
   trace := ht
   rvLt := fun v hv => by rw [hh] at hv; simp at hv; subst hv; exact hrv
   hist := by rw [hh]; exact List.pairwise_singleton _ _
   cur := fun c' hc' => by rw [hc] at hc'; cases hc'; exact ⟨[], hh⟩
   bound := fun n hn => ⟨c, by rw [hh]; simp, hb n hn⟩
+  idOk := fun v hv => by rw [hh] at hv; simp at hv; subst hv; exact hid
   xcur := fun n => by rw [hx n]; simp
   xfor := fun n ⟨x, hxn, hc⟩ ox hox => by
     rw [hx n] at hox; simp at hox; subst hox; exact ⟨x, hxn, hc⟩
+
+theorem refName_of_ref {c : Claim} {r : XRef} (h : c.ref = some r) : c.refName = some r.name := by
+  rw [Claim.refName, h]; rfl
 
 /-! ### counting bound XRs -/
 
 def isBound (s : St) (n : Name) : Bool :=
   match s.xrs n with
-  | some x => x.cref == some .self
+  | some x => x.cref == some s.me
   | none => false
 
 theorem isBound_iff (s : St) (n : Name) : isBound s n = true ↔ boundAt s n := by
@@ -85,6 +93,32 @@ theorem isBound_iff (s : St) (n : Name) : isBound s n = true ↔ boundAt s n := 
   cases h : s.xrs n with
   | none => simp
   | some x => simp
+
+/-! ### the identity of the claim never changes -/
+
+theorem delState_me (s : St) (n : Name) (x x1 : XR) : (delState s n x x1).me = s.me := by
+  unfold delState
+  repeat' split
+  all_goals rfl
+
+theorem exec_me (s : St) (r : Req) : (exec s r).1.me = s.me := by
+  cases r <;> simp only [exec] <;> repeat' split
+  all_goals first | rfl | exact delState_me _ _ _ _
+
+theorem env_me {s s' : St} (h : Env s s') : s'.me = s.me := by
+  cases h <;> rfl
+
+theorem reach_me {s0 : St} {sys : Sys} (hr : Reach s0 sys) : sys.st.me = s0.me := by
+  induction hr with
+  | init => rfl
+  | step a b _ hstep ih =>
+    cases hstep with
+    | env s s' t he => exact (env_me he).trans ih
+    | start s t cfg => exact ih
+    | callOk s r k => exact (exec_me s r).trans ih
+    | callErr s r k o => exact ih
+    | callLost s r k o => exact (exec_me s r).trans ih
+    | done s a => exact ih
 
 /-! ### helper to build example executions -/
 
